@@ -335,6 +335,15 @@ func (vc *VC) applyContract(st *State, ci *calleeInfo, instr ssa.Instruction, si
 		vc.oblige(st, g, r.Label, "requires", site, clauseProps(r, unionProps(vc.props(), nil)), r.Src, ci.key)
 		st.assume = append(st.assume, g)
 	}
+	// object invariants of the callee's type: inside the owning package the caller is responsible for them (outside,
+	// the representation is out of reach and they hold by the object-invariant methodology)
+	samePkg := vc.contract != nil && vc.contract.Pkg != nil && c.Pkg != nil && vc.contract.Pkg.PkgPath == c.Pkg.PkgPath
+	if samePkg {
+		for _, inv := range c.ObjInvs {
+			g := vc.trClause(env, inv)
+			vc.oblige(st, g, "object-invariant:"+inv.Label, "requires", site, clauseProps(inv, vc.props()), inv.Src, ci.key)
+		}
+	}
 	// havoc
 	vc.havocAssigns(st, env, c, pre)
 	// results
@@ -377,6 +386,11 @@ func (vc *VC) applyContract(st *State, ci *calleeInfo, instr ssa.Instruction, si
 	}
 	for _, en := range c.Ensures {
 		st.assume = append(st.assume, vc.trClause(post, en))
+	}
+	if samePkg {
+		for _, inv := range c.ObjInvs {
+			st.assume = append(st.assume, vc.trClause(post, inv))
+		}
 	}
 	if ci.key == "(*sync.WaitGroup).Wait" {
 		vc.joinThreads(st, instr)
